@@ -586,12 +586,100 @@ class ManagerModel:
         return out
 
 
-def _job_a(args):
-    seed, prefix, depth, horizon = args
-    m = ManagerModel(seed, horizon)
-    r = X.bfs(m, depth, prefix=prefix, xcheck_every=997)
-    r.violations = []
-    return r, dict(m.stats), m.viol.agg
+# ------------------------------------------------------------------------------------------------
+# World A driver: level-synchronous breadth-first search, states de-duplicated globally
+# ------------------------------------------------------------------------------------------------
+# mc.explore.parallel_bfs de-duplicates inside each worker only; for this world (47 events, heavily confluent) that
+# repeats most of the work 5x and keeps whole levels of worlds in memory.  Same technique (explicit-state BFS over the
+# real object, snapshots by deepcopy), different bookkeeping: the master keeps one HISTORY per distinct canonical state
+# of the current level; workers rebuild each state by replaying its history on a fresh manager (which is at the same
+# time the replay-versus-snapshot cross-check, for EVERY state: the hash must equal the one computed from the snapshot
+# that discovered it), run the liveness probes if it is passive, and expand it with every event of the alphabet.
+_MODEL_A = {}
+
+
+def _model_a(seed, horizon):
+    m = _MODEL_A.get((seed, horizon))
+    if m is None:
+        m = _MODEL_A[(seed, horizon)] = ManagerModel(seed, horizon, probes=False)
+    return m
+
+
+def _expand_chunk(args):
+    seed, horizon, expand, items = args
+    m = _model_a(seed, horizon)
+    m.stats = collections.Counter()
+    m.viol = Aggregator()
+    succ = []
+    outcomes = set()
+    for idx, hist, expected in items:
+        w = X.rebuild(m, list(hist))
+        if expected is not None:
+            m.stats["xchecks"] += 1
+            if X._h(m.canon(w)) != expected:
+                raise X.NondeterminismError(f"replay of {hist!r} does not reproduce the state found by snapshot+apply")
+        if w.obs["state"] == "VRU_PASSIVE":
+            m.stats["passive_states"] += 1
+            m.viol.take(m.probe_passive(w), hist)
+        if not expand:
+            continue
+        for ei, ev in enumerate(m.alpha):
+            nxt = X.snapshot(m, w)
+            obs = m.apply(nxt, ev)
+            m.stats["transitions"] += 1
+            if m.check(nxt, ev, obs, hist + (ev,)):
+                m.stats["pruned"] += 1
+                continue
+            outcomes.add(obs)
+            succ.append((idx, ei, X._h(m.canon(nxt))))
+    return succ, outcomes, dict(m.stats), m.viol.agg
+
+
+def level_bfs(pool, seed, depth, horizon, chunk=96):
+    m = _model_a(seed, horizon)
+    alpha = m.alpha
+    k0 = X._h(m.canon(m.init()))
+    seen = {k0}
+    frontier = [((), None)]
+    stats = collections.Counter()
+    agg = {}
+    outcomes = set()
+    per_depth = {0: 1}
+    samples = []
+    for d in range(depth + 1):
+        expand = d < depth
+        items = [(i, h, k) for i, (h, k) in enumerate(frontier)]
+        jobs = [(seed, horizon, expand, items[i:i + chunk]) for i in range(0, len(items), chunk)]
+        nxt = []
+        for succ, outc, st, ag in pool.imap(_expand_chunk, jobs):      # ordered: the kept history per state is deterministic
+            stats.update(st)
+            Aggregator.merge(agg, ag)
+            outcomes |= outc
+            for idx, ei, k in succ:
+                if k in seen:
+                    continue
+                seen.add(k)
+                nxt.append((frontier[idx][0] + (alpha[ei],), k))
+        if not expand:
+            break
+        per_depth[d + 1] = len(nxt)
+        if nxt and len(samples) < 3 and d + 1 >= 3:
+            samples.append([list(e) for e in nxt[len(nxt) // 2][0]])
+        frontier = nxt
+        if not frontier:
+            break
+    r = X.Result()
+    r.hashes = seen
+    r.states = len(seen)
+    r.transitions = stats["transitions"]
+    r.pruned = stats["pruned"]
+    r.xchecks = stats["xchecks"]
+    r.max_depth = max(per_depth)
+    r.depth_hist = per_depth
+    r.outcomes = outcomes
+    r.samples = samples
+    r.complete = not frontier
+    return r, stats, agg
 
 
 # ------------------------------------------------------------------------------------------------
@@ -1028,34 +1116,6 @@ def _job_sweep(args):
 # ------------------------------------------------------------------------------------------------
 # driver
 # ------------------------------------------------------------------------------------------------
-def head_a(model, split_depth):
-    """Breadth-first over the first ``split_depth`` events (cuts honoured); returns the histories of the distinct
-    states at the split depth, which are the roots of the parallel explorations."""
-    r = X.bfs(model, split_depth, xcheck_every=0)
-    # second pass to collect one history per distinct frontier state (bfs does not expose its frontier)
-    seen = {X._h(model.canon(model.init()))}
-    frontier = collections.deque([(model.init(), ())])
-    roots = []
-    probe_model = ManagerModel(0, model.horizon, probes=False)
-    probe_model.alpha = model.alpha
-    while frontier:
-        w, hist = frontier.popleft()
-        if len(hist) == split_depth:
-            roots.append(hist)
-            continue
-        for ev in model.enabled(w):
-            nxt = X.snapshot(probe_model, w)
-            obs = probe_model.apply(nxt, ev)
-            if probe_model.check(nxt, ev, obs, hist + (ev,)):
-                continue            # cut
-            k = X._h(probe_model.canon(nxt))
-            if k in seen:
-                continue
-            seen.add(k)
-            frontier.append((nxt, hist + (ev,)))
-    return r, roots
-
-
 def _report(ctx, agg, part):
     for s in sorted(agg):
         n, rec, hist = agg[s]
@@ -1077,7 +1137,6 @@ LOOP_VARIANTS = ("lonely", "late", "breakup", "breakup_cpm", "lost", "leave")
 def run(ctx):
     thorough = ctx.tier == "thorough"
     depth = 8 if thorough else 6
-    split = 2
     horizon = depth * max(STEPS)
     durs = V.lattice_selfcheck()
     V.coder()                                   # compile once, inherited by the forked workers
@@ -1092,14 +1151,6 @@ def run(ctx):
     if runs[0] != runs[1]:
         raise HarnessError("replaying one history twice gave different observations")
 
-    head_model = ManagerModel(ctx.seed, horizon)
-    head, roots = head_a(head_model, split)
-    tot = X.Result()
-    tot.merge(head)
-    stats = collections.Counter(head_model.stats)
-    agg_a = {}
-    Aggregator.merge(agg_a, head_model.viol.agg)
-    jobs_a = [(ctx.seed, r, depth, horizon) for r in roots]
     jobs_b = [(names, v, ctx.seed) for names in (("A", "B"), ("A", "B", "C")) for v in LOOP_VARIANTS]
     jobs_s = []
     for what, hi in SWEEPS.items():
@@ -1113,13 +1164,9 @@ def run(ctx):
     sweep_n = 0
     outcomes_b = set()
     with mp.Pool(16) as pool:
-        res_a = pool.imap_unordered(_job_a, jobs_a)
         res_b = pool.imap_unordered(_job_b, jobs_b)
         res_s = pool.imap_unordered(_job_sweep, jobs_s)
-        for r, st, agg in res_a:
-            tot.merge(r)
-            stats.update(st)
-            Aggregator.merge(agg_a, agg)
+        tot, stats, agg_a = level_bfs(pool, ctx.seed, depth, horizon)
         _report(ctx, agg_a, "A")
         for (names, variant), r, st, agg in res_b:
             label = "B:%s:%s" % ("".join(names), variant)
@@ -1141,9 +1188,10 @@ def run(ctx):
                 rec["part"] = "B:sweep"
                 ctx.violation(rec, replay=dict(part="B:sweep", sweep=where))
     digests.insert(0, ("A", tot.digest()))
+    n_alpha = len(alphabet())
     ctx.parts["A"] = dict(states=tot.states, transitions=tot.transitions, max_depth=tot.max_depth, depth_bound=depth,
-                          split_depth=split, roots=len(roots), pruned=tot.pruned, xchecks=tot.xchecks,
-                          probes=stats.get("probes", 0), outcomes=len(tot.outcomes), alphabet=len(head_model.alpha),
+                          pruned=tot.pruned, xchecks=tot.xchecks, passive_states_probed=stats.get("passive_states", 0),
+                          probes=stats.get("probes", 0), outcomes=len(tot.outcomes), alphabet=n_alpha,
                           states_per_depth={str(k): v for k, v in sorted(tot.depth_hist.items())})
     ctx.parts["B:sweep"] = dict(evaluations=sweep_n, windows={k: v + 1 for k, v in SWEEPS.items()})
     ctx.coverage.update(
@@ -1158,7 +1206,7 @@ def run(ctx):
         samples=(tot.samples[:2] + samples[:1]) or [[list(e) for e in probe_hist]],
         explanation=("A: every transition is one call into the real VBSClusteringManager (command, update, on_received_vam "
                      "with a hand-built dict or with the output of the real VAM coder, or a clock step); all histories over "
-                     f"the {len(head_model.alpha)}-event alphabet up to depth {depth} from the initial state, states merged by "
+                     f"the {n_alpha}-event alphabet up to depth {depth} from the initial state, states merged by "
                      "a canonical projection (ages on the 50 ms lattice); probes are executed on copies of every distinct "
                      "passive state. B: every order of location callbacks and deliveries inside each stage of the scripted "
                      "scenarios over complete VRUAwarenessService objects; graphs closed (run to the end of the script)."),
